@@ -1,6 +1,6 @@
 (* the cases of C18: block-level BDL texts, KyGananciasSolares.txt files, NewBDL_O.tbl files, typed elements *)
 From Coq Require Import NArith.
-From CTE Require Import Model.BdlCase Model.KygCase Model.TblCase Model.TypedCase.
-Inductive c18any := CBdl (c : c18case) | CKyg (c : kygcase) | CTbl (c : tblcase) | CTyped (c : typedcase).
+From CTE Require Import Model.BdlCase Model.KygCase Model.TblCase Model.TypedCase Model.BuildingCase.
+Inductive c18any := CBdl (c : c18case) | CKyg (c : kygcase) | CTbl (c : tblcase) | CTyped (c : typedcase) | CBuilding (c : buildingcase).
 Definition agree_C18any (c : c18any) : N :=
-  match c with CBdl x => agree_C18 x | CKyg x => agree_C18K x | CTbl x => agree_C18T x | CTyped x => agree_C18Y x end.
+  match c with CBdl x => agree_C18 x | CKyg x => agree_C18K x | CTbl x => agree_C18T x | CTyped x => agree_C18Y x | CBuilding x => agree_C18B x end.
